@@ -43,7 +43,7 @@ var c07Features = [][]string{
 	{"", "domain=a.com", "domain=~a.com", "domain=a.*"},                          // 2 (the negated form restricts but does not make the rule specific; a wildcard-TLD domain does)
 	{"", "script", "script,image", "~script", "~script,~image", "script,~image"}, // 3 content types
 	{"", "third-party", "~third-party"},                                          // 4
-	{"", "match-case"},                                                           // 5
+	{"", "match-case", "~match-case"},                                            // 5
 	{"", "dnstype=A", "dnstype=~A"},                                              // 6
 	{"", "ctag=pc", "ctag=~pc"},                                                  // 7
 	{"", "client=10.0.0.1", "client=~10.0.0.1"},                                  // 8
@@ -89,18 +89,28 @@ func c07Pool(quick bool) (pool []*c07Rule, rejected int) {
 	for i, f := range c07Features {
 		dims[i] = len(f)
 	}
+	full := append([]int{}, dims...)
+	// the dense part: the full product over the core values of every slot
+	dims[2], dims[3], dims[5] = 3, 5, 2
 	if quick {
 		dims[5], dims[6], dims[4] = 1, 1, 2 // quick: drop match-case, dnstype and ~third-party
 	}
+	seen := map[string]bool{}
 	feat := make([]int, len(dims))
+	add := func() {
+		if r := c07Build(feat); r != nil {
+			if !seen[r.text] {
+				seen[r.text] = true
+				pool = append(pool, r)
+			}
+		} else {
+			rejected++
+		}
+	}
 	var rec func(i int)
 	rec = func(i int) {
 		if i == len(dims) {
-			if r := c07Build(feat); r != nil {
-				pool = append(pool, r)
-			} else {
-				rejected++
-			}
+			add()
 			return
 		}
 		for v := 0; v < dims[i]; v++ {
@@ -109,6 +119,32 @@ func c07Pool(quick bool) (pool []*c07Rule, rejected int) {
 		}
 	}
 	rec(0)
+	// the sparse part: every value of every slot (also the ones the dense part
+	// leaves out), with at most k slots present besides exception and important
+	k := 3
+	if quick {
+		k = 2
+	}
+	var sparse func(i, used int)
+	sparse = func(i, used int) {
+		if i == len(full) {
+			add()
+			return
+		}
+		lim := full[i]
+		if i >= 2 && used == k {
+			lim = 1
+		}
+		for v := 0; v < lim; v++ {
+			feat[i] = v
+			u := used
+			if i >= 2 && v > 0 {
+				u++
+			}
+			sparse(i+1, u)
+		}
+	}
+	sparse(0, 0)
 	return pool, rejected
 }
 
